@@ -664,36 +664,132 @@ fn model_calls(tree: &DAst, input: Val, rng: &SimRng) -> Option<usize> {
 // (`First(..)` / `Second(..)` / `MapError(inner, index)`), which — unlike the wording of the
 // `Display` messages — only changes when the error types themselves change.
 
+/// Splits the payload of `Name(..)` / `Name { .. }` at top-level commas.
+fn split_top_level(s: &str) -> Vec<String> {
+    let mut out = Vec::new();
+    let (mut depth, mut cur, mut in_str) = (0i32, String::new(), false);
+    let mut prev = ' ';
+    for c in s.chars() {
+        if in_str {
+            cur.push(c);
+            if c == '"' && prev != '\\' {
+                in_str = false;
+            }
+        } else {
+            match c {
+                '"' => {
+                    in_str = true;
+                    cur.push(c);
+                }
+                '(' | '{' | '[' => {
+                    depth += 1;
+                    cur.push(c);
+                }
+                ')' | '}' | ']' => {
+                    depth -= 1;
+                    cur.push(c);
+                }
+                ',' if depth == 0 => {
+                    out.push(cur.trim().to_string());
+                    cur.clear();
+                }
+                _ => cur.push(c),
+            }
+        }
+        prev = c;
+    }
+    if !cur.trim().is_empty() {
+        out.push(cur.trim().to_string());
+    }
+    out
+}
+
+/// `Name(payload)` or `Name { payload }` -> (Name, payload)
+fn name_and_payload(s: &str) -> Option<(&str, &str)> {
+    let s = s.trim();
+    let end = s.find(|c: char| !(c.is_alphanumeric() || c == '_' || c == ':'))?;
+    let (name, rest) = s.split_at(end);
+    let rest = rest.trim();
+    let inner = rest
+        .strip_prefix('(')
+        .and_then(|r| r.strip_suffix(')'))
+        .or_else(|| rest.strip_prefix('{').and_then(|r| r.strip_suffix('}')))?;
+    if name.is_empty() {
+        return None;
+    }
+    Some((name, inner.trim()))
+}
+
+/// `field: value` -> (Some(field), value); `value` -> (None, value)
+fn field_of(item: &str) -> (Option<&str>, &str) {
+    if let Some((f, v)) = item.split_once(':') {
+        let f = f.trim();
+        if !f.is_empty() && f.chars().all(|c| c.is_alphanumeric() || c == '_') && !v.starts_with(':') {
+            return (Some(f), v.trim());
+        }
+    }
+    (None, item.trim())
+}
+
+/// Reads the failing part / element from the derived `Debug` structure of a combinator error. Tolerant of the
+/// shapes a maintainer may legitimately choose: tuple or named-field structs, extra fields, boxed payloads.
+/// A variant whose name starts with `First` / `Second` names the part; a type whose name contains `Map` names an
+/// element: its index is the field called `index` / `idx` / `position` / `element` if fields are named, the last
+/// bare integer otherwise; the nested error is the payload item that is itself a structure.
 fn error_path<E: fmt::Debug>(e: &E) -> Vec<String> {
     let text = format!("{e:?}");
     let mut out = Vec::new();
-    let mut s: &str = text.trim();
-    loop {
-        if let Some(rest) = s.strip_prefix("First(").and_then(|r| r.strip_suffix(')')) {
-            out.push("first".to_string());
-            s = rest.trim();
-        } else if let Some(rest) = s.strip_prefix("Second(").and_then(|r| r.strip_suffix(')')) {
-            out.push("second".to_string());
-            s = rest.trim();
-        } else if let Some(rest) = s.strip_prefix("MapError(").and_then(|r| r.strip_suffix(')')) {
-            match rest.rsplit_once(',') {
-                Some((inner, idx)) => {
-                    out.push(format!("map[{}]", idx.trim()));
-                    s = inner.trim();
-                }
-                None => {
-                    out.push(format!("unparsed:{rest}"));
-                    break;
-                }
-            }
-        } else {
-            // leaf: the probe's own error, e.g. `PErr { id: 2, call: 1 }`
-            let nums: Vec<&str> = s.split(|c: char| !c.is_ascii_digit()).filter(|t| !t.is_empty()).collect();
-            if s.starts_with("PErr") && nums.len() == 2 {
+    let mut s: String = text.trim().to_string();
+    for _ in 0..64 {
+        let Some((name, payload)) = name_and_payload(&s) else {
+            out.push(format!("leaf:{s}"));
+            break;
+        };
+        let short = name.rsplit("::").next().unwrap_or(name);
+        if short.starts_with("PErr") {
+            let nums: Vec<&str> = payload.split(|c: char| !c.is_ascii_digit()).filter(|t| !t.is_empty()).collect();
+            if nums.len() == 2 {
                 out.push(format!("probe {} failed at probe call {}", nums[0], nums[1]));
             } else {
                 out.push(format!("leaf:{s}"));
             }
+            break;
+        }
+        let items = split_top_level(payload);
+        if short.starts_with("First") || short.starts_with("Second") {
+            out.push(if short.starts_with("First") { "first".to_string() } else { "second".to_string() });
+            let next = items
+                .iter()
+                .map(|it| field_of(it).1)
+                .find(|v| name_and_payload(v).is_some())
+                .or_else(|| items.first().map(|it| field_of(it).1));
+            match next {
+                Some(n) => s = n.to_string(),
+                None => break,
+            }
+        } else if short.contains("Map") {
+            let parsed: Vec<(Option<&str>, &str)> = items.iter().map(|it| field_of(it)).collect();
+            let named_idx = parsed
+                .iter()
+                .find(|(f, v)| f.is_some_and(|f| ["index", "idx", "position", "element"].contains(&f)) && v.parse::<usize>().is_ok())
+                .map(|(_, v)| *v);
+            let bare_idx = parsed.iter().rev().find(|(f, v)| f.is_none() && v.parse::<usize>().is_ok()).map(|(_, v)| *v);
+            match named_idx.or(bare_idx) {
+                Some(i) => out.push(format!("map[{i}]")),
+                None => {
+                    out.push(format!("unparsed:{payload}"));
+                    break;
+                }
+            }
+            match parsed.iter().map(|(_, v)| *v).find(|v| name_and_payload(v).is_some()) {
+                Some(n) => s = n.to_string(),
+                None => break,
+            }
+        } else if items.len() == 1 && name_and_payload(field_of(&items[0]).1).is_some() {
+            // a transparent wrapper (newtype) around the real error
+            s = field_of(&items[0]).1.to_string();
+        } else {
+            out.push(format!("leaf:{s}"));
             break;
         }
     }
